@@ -91,6 +91,15 @@ struct SkblModel {
         h = c.add_vertex();
       }
       out["ret"] = h.vertex;
+    } else if (op == "load") {
+      // a complex given by its skeleton and blockers, through the public construction calls
+      int nv = static_cast<int>(I(act.at("nv")));
+      for (int v = 0; v < nv; ++v) {
+        if constexpr (Geometric) { VH h = c.add_vertex(typename Complex::Point{next_pt}); pts[h.vertex] = next_pt; next_pt += 1; }
+        else c.add_vertex();
+      }
+      for (auto& e : act.at("e_set").as_array()) { VSet ab = ints(e); c.add_edge_without_blockers(VH(ab[0]), VH(ab[1])); }
+      for (auto& b : act.at("b_set").as_array()) c.add_blocker(simplex(ints(b)));
     } else if (op == "add_edge" || op == "add_edge_wb") {
       int a = static_cast<int>(I(act.at("a"))), b = static_cast<int>(I(act.at("b")));
       EH e = op == "add_edge" ? c.add_edge(VH(a), VH(b)) : c.add_edge_without_blockers(VH(a), VH(b));
